@@ -27,6 +27,21 @@ Proof.
   intros otp a H. destruct (wire2_only_public _ _ _ H) as [->|[->|[->|[->| ->]]]]; reflexivity.
 Qed.
 
+(* the web-browser login: the same, and what is handed to the browser carries no key material at all *)
+Lemma wire_web_only_public sg a : In a (wire_atoms (setup_wire_web sg)) ->
+  a = AText \/ a = ASecret \/ a = public (sg_x509 sg) \/ a = public (sg_ssh sg) \/ a = public (sg_ed sg).
+Proof.
+  unfold wire_atoms, setup_wire_web, do_cert_request, create_key_body_request, verify_token, encode.
+  simpl; intros H; repeat (destruct H as [H|H]; [subst; auto 10|]); destruct H.
+Qed.
+
+Lemma no_private_on_wire_web : forall a, In a (wire_atoms (setup_wire_web make_signers) ++ browser_url) -> is_priv a = false.
+Proof.
+  intros a H. apply in_app_or in H. destruct H as [H|H].
+  - destruct (wire_web_only_public _ _ H) as [->|[->|[->|[->| ->]]]]; reflexivity.
+  - unfold browser_url in H. simpl in H. destruct H as [<-|[<-|[<-|[]]]]; reflexivity.
+Qed.
+
 (* and each certificate request carries exactly the public half of the signer it was given *)
 Lemma cert_request_carries_public s ct : r_body (do_cert_request s ct) = [public s; AText].
 Proof. reflexivity. Qed.
